@@ -225,11 +225,18 @@ type evmSim struct {
 	calls         int
 	gs            *gsSim // nil: index 0 with one fixed key
 	subCount      int    // log subscriptions made so far (one per Run)
+
+	// extension X8: receipts / block times / faults for transactions and blocks whose content is given byte by byte (raw logs)
+	rawRcpts   map[ethcommon.Hash]*types.Receipt
+	rawTimes   map[ethcommon.Hash]uint64
+	rawRcptErr map[ethcommon.Hash]bool
+	rawBbhErr  map[ethcommon.Hash]bool
 }
 
 func newEvmSim(head uint64) *evmSim {
 	return &evmSim{head: head, headHash: hID(kindHead, head), rcpts: map[int]*simRcpt{}, rcptErr: map[int]bool{}, bbhErr: map[int]bool{}, bbhHold: map[int]chan struct{}{},
-		bumpOnRcpt: map[int]uint64{}, subReady: make(chan struct{}), bbhCalls: map[ethcommon.Hash]int{}, numStrs: map[string]int{}, notes: map[string]int{}, txNotes: map[string]int{}}
+		bumpOnRcpt: map[int]uint64{}, subReady: make(chan struct{}), bbhCalls: map[ethcommon.Hash]int{}, numStrs: map[string]int{}, notes: map[string]int{}, txNotes: map[string]int{},
+		rawRcpts: map[ethcommon.Hash]*types.Receipt{}, rawTimes: map[ethcommon.Hash]uint64{}, rawRcptErr: map[ethcommon.Hash]bool{}, rawBbhErr: map[ethcommon.Hash]bool{}}
 }
 
 var errInjected = errors.New("verif: injected RPC failure")
@@ -292,6 +299,12 @@ func (s *evmSim) GetBlockByHash(ctx context.Context, h ethcommon.Hash, full bool
 	if hKind(h) == kindBlock && s.bbhErr[hNum(h)] {
 		return nil, errInjected
 	}
+	if s.rawBbhErr[h] {
+		return nil, errInjected
+	}
+	if t, ok := s.rawTimes[h]; ok {
+		return &types.Header{Number: big.NewInt(1), Time: t, Difficulty: big.NewInt(0)}, nil
+	}
 	return &types.Header{Number: big.NewInt(1), Time: blockTimeOf(h), Difficulty: big.NewInt(0)}, nil
 }
 
@@ -300,6 +313,21 @@ func (s *evmSim) GetTransactionReceipt(ctx context.Context, h ethcommon.Hash) (*
 	defer s.mu.Unlock()
 	tx := hNum(h)
 	rec := lookupRec{Tx: tx, Kind: hKind(h), Head: s.head}
+	if s.rawRcptErr[h] {
+		rec.Code = 1
+		s.lookups = append(s.lookups, rec)
+		return nil, errInjected
+	}
+	if rr, ok := s.rawRcpts[h]; ok {
+		// a receipt whose logs are given byte by byte (extension X8); BH = id of the block hash (hID layout)
+		rec.Code, rec.Status, rec.BH = 2, rr.Status, hNum(rr.BlockHash)
+		if rr.BlockNumber != nil {
+			rec.Blk = rr.BlockNumber.Uint64()
+		}
+		s.lookups = append(s.lookups, rec)
+		cp := *rr
+		return &cp, nil
+	}
 	if hKind(h) != kindTx {
 		s.lookups = append(s.lookups, rec)
 		return nil, nil
@@ -490,6 +518,18 @@ func (s *evmSim) Logs(ctx context.Context, crit json.RawMessage) (*rpc.Subscript
 	s.mu.Unlock()
 	s.subOnce.Do(func() { close(s.subReady) })
 	return sub, nil
+}
+
+// pushUnfiltered delivers a log to the subscriber whatever the subscription asked for (a node that does not apply the filter)
+func (s *evmSim) pushUnfiltered(l *types.Log) bool {
+	s.mu.Lock()
+	n, id := s.notifier, s.subID
+	s.mu.Unlock()
+	if n == nil {
+		return false
+	}
+	n.Notify(id, l)
+	return true
 }
 
 // push delivers a log to the subscriber if the subscription's own filter admits it (as a node would); returns whether it was sent
